@@ -235,6 +235,23 @@ PROPS["C14"] = dict(
     thorough=dict(shards=16, timeout=2400, race=True),
 )
 
+PROPS["C08"] = dict(
+    pkg="c08", level="exploration", design_ref="DESIGN.md section 3, C08",
+    technique="rapid-generated (transport, worker pool, codec options, function, argument values, proxy/Invoke/namespace, name spelling, induced error or panic) calls over real loopback transports, differential against the local call plus a service-side invocation recorder",
+    level_text=("Differential property over real transports: a catalogue of 21 published functions (no/one/many parameters and results, variadic, context-taking, error-returning, "
+                "struct/pointer/map/slice/interface parameters, a non-ASCII name, a namespaced name) is served on mock, tcp, unix, udp, websocket (net/http and fasthttp servers), "
+                "net/http and fasthttp, with and without a bounded worker pool, and called through UseService proxies, a namespace proxy, or InvokeContext with a generated spelling "
+                "of the name under three client codec settings. Every generated call is also made locally: the recorder must show exactly one invocation of the same function with "
+                "equal arguments, results must equal the local results, and an induced error or panic must reach the caller as an error carrying the same message. Unknown names must "
+                "reach the missing-method handler when installed and be an error otherwise."),
+    level_note="The http client transport is net/http by default; the shard set with VERIF_HTTP_CLIENT=fasthttp uses the fasthttp client transport (the scheme registry is process-global).",
+    rule=("remote-vs-local: rapid-drawn calls; non-trivial = at least one non-zero argument. Classes: transport x outcome (ok/error/panic), mode (proxy/invoke/ns), pool, function. "
+          "missing-method: generated unknown names x handler installed or not. Distinct by case text."),
+    assumptions=["struct types of the catalogue are registered", "time.Local pinned to a fixed zone", "loopback networking and unix sockets are available"],
+    quick=dict(shards=4, timeout=600),
+    thorough=dict(shards=16, timeout=2400),
+)
+
 # properties not claimed yet (kept current as checks land)
 _ALL = ["C%02d" % i for i in range(1, 21)]
 NOT_APPLICABLE = [dict(property_id=p, reason="check not built yet in this revision (planned in DESIGN.md section 3); not a limit of the technique")
